@@ -117,6 +117,19 @@ CLAIMED = {
             'Float-level placement next to a boundary of an inexact cumulative array is only constrained to the two '
             'adjacent positive-rate bins. Trusted: vh/invcdf.py (exact rational cumulative boundaries), the capture wrappers.',
             '5/C06'),
+    'C16': ('TLA+ spec computing binary log-likelihood / spatial variant / Brier score as formal expressions '
+            '(BinaryBrier.tla); TLC checks activity-only dependence and structure; cases and captured simulated catalogs '
+            'evaluated against the real functions',
+            'TLC enumerates every 2x2 rate-id matrix x activity pattern x {BLL, spatial BLL, Brier} and checks '
+            'DependsOnlyOnActivity (action property over adding events to active bins), NIsBinCount, NegInfIffActiveZeroRate, '
+            'OneTermPerBin; every case is evaluated through binary_joint_log_likelihood_ndarray / _brier_score_ndarray and the '
+            'public binary_conditional_likelihood / binary_spatial / brier_score tests with 1..3 events per active bin and 3-5 '
+            'rate tables (1e-9..10); random forecasts are run with the real sampler captured, and TLC returns the expression '
+            'each simulated value must equal.',
+            'Numerical leaves against mpmath (rtol 1e-9, atol 1e-11 plus 16*eps/min(rate,1) per active bin for the '
+            'cancellation in log(1-exp(-x))). One recorded finding: an event in a zero-rate bin yields a finite value '
+            '(known_findings.json).',
+            '5/C16'),
 }
 
 NOT_YET = 'check not built yet in this round (specification planned in DESIGN.md section 5); not claimed until it exists'
